@@ -14,7 +14,7 @@ fi
 git -C "$dir" diff --stat | tail -1
 (cd "$dir" && /venv/bin/python -m pytest -q -p no:cacheprovider -x 2>&1 | tail -1)
 for c in "$@"; do
-  VERIF_REPO="$dir" ./check "$c" --tier quick > /tmp/mut/$name.$c.out 2>&1
+  VERIF_EVIDENCE_DIR=/tmp/mut/evidence VERIF_REPO="$dir" ./check "$c" --tier quick > /tmp/mut/$name.$c.out 2>&1
   echo "$c exit=$? $(grep -c '^VIOLATION' /tmp/mut/$name.$c.out) violations; $(grep -m1 'sig=' /tmp/mut/$name.$c.out)"
 done
 git -C /repo worktree remove --force "$dir"
